@@ -293,6 +293,10 @@ func runC08(c *Ctx) {
 	if ff := c.Fn("root", "Node.FixFrame"); ff != nil {
 		r.Functions[fnQual(ff)] = true
 		enc := callsNamed(ff, "(gomavlib.Node).encodeFrame")
+		if len(enc) == 0 {
+			// encodeFrame written in line: the message codec applied directly
+			enc = callsNamed(ff, "(message.ReadWriter).Write")
+		}
 		var probs []string
 		if len(enc) != 1 {
 			probs = append(probs, "FixFrame does not encode the (edited) message")
@@ -301,7 +305,7 @@ func runC08(c *Ctx) {
 		for _, s := range frameStoresIn(ff) {
 			if s.field == "Checksum" && strings.Contains(s.val, "GenerateChecksum(") {
 				sums = append(sums, s)
-				if len(enc) == 1 && !instrDominates(enc[0], s.st) {
+				if len(enc) == 1 && (reachInstr(s.st, enc[0]) || !reachInstr(enc[0], s.st)) {
 					probs = append(probs, "checksum computed before encoding")
 				}
 				if !strings.Contains(s.val, "(message.ReadWriter).CRCExtra((dialect.ReadWriter).GetMessage(recv.dialectRW,(message.Message).GetID((frame.Frame).GetMessage(arg0))))") {
@@ -326,7 +330,7 @@ func runC08(c *Ctx) {
 			}
 		}
 		// encode error returned
-		if len(enc) == 1 && !errReturned(ff, enc[0].(*ssa.Call)) {
+		if len(enc) == 1 && returnsError(enc[0].(*ssa.Call)) && !errReturned(ff, enc[0].(*ssa.Call)) {
 			probs = append(probs, "encode error is not returned")
 		}
 		r.Check(len(probs) == 0, "R8.3", "Node.FixFrame order", c.Pos(ff.Pos()), "encode → checksum → signature", strings.Join(probs, "; "))
